@@ -96,6 +96,15 @@ def check(col: Collector, tier: str):
     ctl = any(isinstance(n, ast.Compare) and "0x20" in src(n).lower() or (isinstance(n, ast.Compare) and " 32" in src(n)) for n in ast.walk(esc.node))
     col.add("C18.R1", esc.short, "other-control-characters-escaped", ctl,
             "characters below 0x20 must be rendered as an escape sequence (a raw control character is not allowed inside a C++ string literal)", esc.loc)
+    fmt = [j for j in ast.walk(esc.node) if isinstance(j, ast.JoinedStr) and any(isinstance(v, ast.FormattedValue) and v.format_spec is not None for v in j.values)]
+    ok_oct = False
+    for j in fmt:
+        lit = "".join(v.value for v in j.values if isinstance(v, ast.Constant))
+        specs = [src(v.format_spec).strip("f'\"") for v in j.values if isinstance(v, ast.FormattedValue) and v.format_spec is not None]
+        ok_oct = lit == "\\" and specs == ["03o"]
+    col.add("C18.R1", esc.short, "control-characters-as-three-digit-octal", ok_oct and len(fmt) == 1,
+            "the generic escape must be a backslash followed by exactly three octal digits: a hex escape (\\xNN) has no length limit in C++ and "
+            "swallows any hex digit characters that follow it", esc.loc)
     rets = [r for r in walk_no_nested(esc.node) if isinstance(r, ast.Return)]
     ok = len(rets) == 1
     if ok:
@@ -129,6 +138,24 @@ def check(col: Collector, tier: str):
                 if mm:
                     kind = mm.group(2)
             branches[kind] = c
+    # whatever the structure: every value built for a constant is typed by a literal type name, never by a function of the value
+    fams = [vc]
+    for c in walk_no_nested(fn):
+        if isinstance(c, ast.Call) and isinstance(c.func, ast.Attribute) and isinstance(c.func.value, ast.Name) and c.func.value.id == "self":
+            for g in repo.resolve_call(vc, c):
+                if g.cls is not None and g.name not in ("get_rep", "visit") and g not in fams:
+                    fams.append(g)
+    n_vals = 0
+    for g in fams:
+        for c in walk_no_nested(g.node):
+            if isinstance(c, ast.Call) and call_name(c) == "cpp_value":
+                t = c.args[2] if len(c.args) > 2 else kwarg(c, "cpp_type")
+                n_vals += 1
+                lit = isinstance(t, ast.Call) and call_name(t) == "terminal" and t.args and isinstance(t.args[0], ast.Constant)
+                via_name = isinstance(t, ast.Call) and call_name(t) == "terminal" and t.args and isinstance(t.args[0], ast.Name)
+                col.add("C18.R4", g.short, f"typed-by-kind-not-by-value:{src(t)[:30]}", bool(lit) or bool(via_name),
+                        f"a constant's C++ type is computed as `{src(t)}`: it must be the literal type of its Python kind (int -> int, float -> "
+                        "double); typing by value (int(n) == n) turns 2.0 into an int and narrows what it is mixed with", f"{g.module.rel}:{c.lineno}")
     col.floor("C18.R4", 4)
     uses_isinstance = any(isinstance(c, ast.Call) and call_name(c) == "isinstance" and "value" in src(c.args[0]) for c in walk_no_nested(fn))
     if set(branches) != {"str", "int", "float", "bool"} and not uses_isinstance:
@@ -204,6 +231,9 @@ def check(col: Collector, tier: str):
     col.floor("C18.R8", 4)
     check_fresh_code_value(col, "C18.R8", repo)
 
+    from sa.props._tr import import_obligations
+    import_obligations(col, "C18.R9", "c03", lambda o: o.detail in ("entry=(name, variable typed by get_ttree_type(value))", "branch-binds-name-k-to-variable-k"),
+                       "the column name given by the query must reach Branch() character for character; only the C++ variable name is sanitised")
     # ------------------------------------------------------------ R7 no memoisation
     col.floor("C18.R7", 2)
     tr = repo.mod("common.ast_to_cpp_translator")
